@@ -28,6 +28,13 @@ type T5 struct{ ID int64 }
 type I0 interface{ I0tok() int64 }
 type I1 interface{ I1tok() int64 }
 
+// I2 is narrower than both I0 and I1 (every I2 value implements them; only T1
+// implements I2): interface-to-interface "implements" relations exist too.
+type I2 interface {
+	I0tok() int64
+	I1tok() int64
+}
+
 func (t T0) I0tok() int64 { return t.ID }
 func (t T1) I0tok() int64 { return t.ID }
 func (t T1) I1tok() int64 { return t.ID }
@@ -36,14 +43,23 @@ func (t T2) I1tok() int64 { return t.ID }
 var types = []reflect.Type{
 	reflect.TypeOf(T0{}), reflect.TypeOf(T1{}), reflect.TypeOf(T2{}),
 	reflect.TypeOf(T3{}), reflect.TypeOf(T4{}), reflect.TypeOf(T5{}),
-	reflect.TypeOf((*I0)(nil)).Elem(), reflect.TypeOf((*I1)(nil)).Elem(),
+	reflect.TypeOf((*I0)(nil)).Elem(), reflect.TypeOf((*I1)(nil)).Elem(), reflect.TypeOf((*I2)(nil)).Elem(),
 }
 
 const nConcrete = 6
 const (
 	tI0 = 6
 	tI1 = 7
+	tI2 = 8
 )
+
+// randIface picks an interface type (the narrow I2 less often).
+func randIface(r *rand.Rand) int {
+	if r.Intn(5) == 0 {
+		return tI2
+	}
+	return nConcrete + r.Intn(2)
+}
 
 var errT = reflect.TypeOf((*error)(nil)).Elem()
 var structMarkerT = reflect.TypeOf(am.Struct{})
